@@ -19,7 +19,7 @@ import (
 func init() { Registry["C15"] = checkC15 }
 
 func checkC15(p *core.Prog, r *core.Report) {
-	r.Explanation = "Decides structural necessary conditions of the atomic-register behaviour: (R1) on every path of Lock/UnLock/wakeUpWaitLock that applies a value operation (ProcessLockData) and then answers, the reply's value argument is a GetLockData() result obtained before the operation, inside the same shard-mutex section; (R2) refusal replies are reached without ProcessLockData/ProcessRecoverLockData on the path; (R3) the operation switches of ProcessLockData and ProcessRecoverLockData have a case for every LOCK_DATA_COMMAND_TYPE_* constant; (R4) the Redis-style command names are registered identically in the leader and follower text protocols and in the converter; (R5) published value frames are immutable: no element store, copy destination or append base in the value-operation code derives from the manager's current frame (replies, undo records and the log still reference it). (R6) the pre-operation value kept for a pending request (LockData.recoverData) is read before the call that clears it, never after. (R7) the Redis-style result writers answer with an error line only on a path where the engine's result code was tested non-zero (an applied operation is never reported as refused). (R8) the data frame a binary request carries is a private buffer: Stream.ReadBytesFrame returns only freshly made slices and the decoder adopts only those (the value operations keep the frame as the stored value). (R9) on a grant that adds a holder the key's depth is incremented before the request's value operation runs (the operation reads the depth for first/last-holder-only operations). (R10) no comparison mixes the request-type enumeration with the value-operation enumeration (one does: known finding, PIPELINE). (R11) every value frame the value-operation code or a codec allocates and hands on as a frame has its own length minus four stored in its first four bytes before the hand-over. NOT decided: the rest of the byte surgery of each operation, numeric overflow, the Redis-style answers."
+	r.Explanation = "Decides structural necessary conditions of the atomic-register behaviour: (R1) on every path of Lock/UnLock/wakeUpWaitLock that applies a value operation (ProcessLockData) and then answers, the reply's value argument is a GetLockData() result obtained before the operation, inside the same shard-mutex section; (R2) refusal replies are reached without ProcessLockData/ProcessRecoverLockData on the path; (R3) the operation switches of ProcessLockData and ProcessRecoverLockData have a case for every LOCK_DATA_COMMAND_TYPE_* constant; (R4) the Redis-style command names are registered identically in the leader and follower text protocols and in the converter; (R5) published value frames are immutable: no element store, copy destination or append base in the value-operation code derives from the manager's current frame (replies, undo records and the log still reference it). (R6) the pre-operation value kept for a pending request (LockData.recoverData) is read before the call that clears it, never after. (R7) the Redis-style result writers answer with an error line only on a path where the engine's result code was tested non-zero (an applied operation is never reported as refused). (R8) the data frame a binary request carries is a private buffer: Stream.ReadBytesFrame returns only freshly made slices and the decoder adopts only those (the value operations keep the frame as the stored value). (R9) on a grant that adds a holder the key's depth is incremented before the request's value operation runs (the operation reads the depth for first/last-holder-only operations). (R10) no comparison mixes the request-type enumeration with the value-operation enumeration (one does: known finding, PIPELINE). (R11) every value frame the value-operation code or a codec allocates and hands on as a frame has its own length minus four stored in its first four bytes before the hand-over. (R12) the engine reads the stored bytes as a little-endian integer only under the frame's NUMBER type mark (it does not: known finding - text SET n 10, INCRBY n 1 answers 12338). NOT decided: the rest of the byte surgery of each operation, numeric overflow, the Redis-style answers."
 	r.Assumptions = []string{"Go type checker and go/ssa are correct for /repo", "GetLockData returns the current frame without copying (so R5 matters)"}
 	c15R1(p, r)
 	c15R2(p, r)
@@ -32,6 +32,7 @@ func checkC15(p *core.Prog, r *core.Report) {
 	c15R9(p, r)
 	c15R10(p, r)
 	c15R11(p, r)
+	c15R12(p, r)
 }
 
 func c15R1(p *core.Prog, r *core.Report) {
@@ -1402,5 +1403,53 @@ func c15R11(p *core.Prog, r *core.Report) {
 	}
 	if total == 0 {
 		r.Fail("C15/R11: no frame allocation found")
+	}
+}
+
+// c15R12: the register holds either bytes (text SET / APPEND store the
+// argument as it is: "10" = 0x31 0x30) or a number (INCR stores 8 bytes
+// little-endian and marks the frame with LOCK_DATA_FLAG_VALUE_TYPE_NUMBER; the
+// text result writers print a frame as an integer only under that mark). For
+// the Redis-style commands to answer like a plain key-value store, the engine
+// may read the stored bytes as a little-endian integer only when the frame
+// carries the mark - otherwise SET n 10, INCRBY n 1 computes on 0x3031.
+func c15R12(p *core.Prog, r *core.Report) {
+	const rule = "C15/R12"
+	r.Rule(rule, "the stored value is read as a little-endian integer (LockManagerData.GetIncrValue) only on paths that tested the frame's NUMBER type mark", 1)
+	fn := mustFunc(p, r, "server.(*LockManagerData).GetIncrValue")
+	if fn == nil {
+		return
+	}
+	number := strconv.FormatInt(mustConst(p, r, "protocol", "LOCK_DATA_FLAG_VALUE_TYPE_NUMBER"), 10)
+	n, bad := 0, ""
+	ex := core.NewExplorer(p, core.Hooks{
+		Track: func(x *core.X, a core.Atom) bool { return strings.Contains(a.String(), "[5]") },
+		Exit: func(x *core.X, rets []core.Expr) {
+			if len(rets) != 1 || rets[0].S == "0" {
+				return
+			}
+			n++
+			tested := false
+			for h := range x.St.Hist {
+				if strings.Contains(h, "[5] & "+number+")") {
+					tested = true
+				}
+			}
+			if !tested {
+				bad = x.Pos()
+			}
+		},
+	})
+	ex.Run(fn, nil)
+	key := "server.(*LockManagerData).GetIncrValue: integer reading of the stored bytes"
+	switch {
+	case ex.Imprecise != "":
+		r.Fail("C15/R12: %s", ex.Imprecise)
+	case n == 0:
+		r.Fail("C15/R12: GetIncrValue has no computed result")
+	case bad != "":
+		r.Violate(rule, key, bad, "the stored bytes are read as a little-endian integer whatever the frame's type mark says: text SET n 10 stores the bytes \"10\", INCRBY n 1 then answers 12338 (0x3031 + 1), and APPEND on a number appends behind the 8 integer bytes while GET still prints the integer - the string and the numeric representation of the register are never converted into each other", nil)
+	default:
+		r.Hold(rule, key, p.Pos(fn.Pos()), "integer reading only under the NUMBER mark")
 	}
 }
